@@ -12,7 +12,7 @@ RULE = ("Cases: as C01 (single call per pool), with extra weight on lazily produ
         "pause/resume path) and on workers > chunks; functors return normally. Oracle: under the harness-owned scheduler 'hang' is the "
         "decidable predicate 'no task is runnable and the consumer has not left the pool context' (no clock); the blocked-on primitive "
         "and source location of every task is reported. E5: every schedule with <=1 (quick) / <=2 (thorough) deviations for three small "
-        "configurations. Non-trivial: the input's StopIteration was delayed (late-stopiteration), or flow control paused the feeder, or "
+        "configurations, plus every schedule with <=2 deviations placed right before accesses to attributes of the pool object (preemption inside a source line) for two small configurations. Non-trivial: the input's StopIteration was delayed (late-stopiteration), or flow control paused the feeder, or "
         "the input was empty, or the schedule deviates from the base policy. Distinct = distinct (configuration, interleaving signature).")
 EXPLANATION = "exhaustive sub-domain: all schedules with <=b deviations from two base policies for the listed small configurations"
 ASSUMPTIONS = ["termination is decided for the controlled system (line granularity + primitive operations); liveness = deadlock-freedom because the code has no retry loops",
@@ -59,9 +59,15 @@ SMALL = [
 ]
 
 
+SHARED = [
+    {"pool": "functor", "workers": 1, "quota": None, "wq": "1.0", "rq": None, "calls": [{"mode": "o", "n": 1, "chunk": 1, "input": "gen", "delays": [0], "tail": 60}], "_drawn": False},
+    {"pool": "functor", "workers": 2, "quota": None, "wq": "1.0", "rq": 1, "calls": [{"mode": "o", "n": 3, "chunk": 1, "input": "gen", "delays": [0, 0, 150], "tail": 0}], "slow": {"0": 40}, "_drawn": False},
+]
+
+
 def enumerations(tier):
     b = 2 if tier == "thorough" else 1
-    return [("all-schedules-<=%d-deviations-3-small-configs" % b, PC.sweep(SMALL, b), True)]
+    return [("all-schedules-<=2-deviations-at-shared-attribute-accesses-2-small-configs", PC.sweep_shared(SHARED), True),("all-schedules-<=%d-deviations-3-small-configs" % b, PC.sweep(SMALL, b), True)]
 
 
 def strategies(tier):
